@@ -44,6 +44,57 @@ def flush_reports(ctx, S, label, rule):
     return n
 
 
+def batch_coverage(ctx, rule, gd, clo, reads):
+    """The depths are computed batch by batch: the batches must cover every spike, the trailing partial batch included. Good forms: the `while True` loop that advances the
+    start by the batch size and leaves when it reaches the number of spikes, `while start < n`, a `range(0, n, batch)` of starts, a ceiling count of batches. Recognised
+    wrong form: a number of batches obtained by floor division / truncation of n / batch (the last n % batch spikes keep their initial NaN)."""
+    loops = []
+    for f_, n in reads:
+        for a in f_.ancestors(n):
+            if isinstance(a, (ast.For, ast.While)):
+                loops.append((f_, a))
+                break
+    if not loops:
+        if reads:
+            ctx.holds(rule, gd, 'the feature table is read in one piece (no batch loop to cover)', reads[0][1])
+        return
+    f_, lp = loops[0]
+    good = bad = False
+    why = ''
+    if isinstance(lp, ast.While):
+        if const_value(lp.test) is True:
+            brk = [i for i in ast.walk(lp) if isinstance(i, ast.If) and any(isinstance(b, ast.Break) for b in i.body)]
+            adv = [x for x in ast.walk(lp) if isinstance(x, ast.AugAssign) and isinstance(x.op, ast.Add) and isinstance(x.target, ast.Name)]
+            for i in brk:
+                c = q.simple_compare(i.test)
+                if c and c[1] in ('>=', '>') and isinstance(c[0], ast.Name) and any(x.target.id == c[0].id for x in adv):
+                    good = True
+                if c and c[1] in ('<=', '<') and isinstance(c[2], ast.Name) and any(x.target.id == c[2].id for x in adv):
+                    good = True
+        else:
+            c = q.simple_compare(lp.test)
+            adv = [x for x in ast.walk(lp) if isinstance(x, ast.AugAssign) and isinstance(x.op, ast.Add) and isinstance(x.target, ast.Name)]
+            if c and c[1] == '<' and isinstance(c[0], ast.Name) and any(x.target.id == c[0].id for x in adv):
+                good = True
+    else:
+        it = f_.expand(lp.iter)
+        floor = [b for b in ast.walk(it) if (isinstance(b, ast.BinOp) and isinstance(b.op, ast.FloorDiv)) or
+                 (isinstance(b, ast.Call) and (dotted(b.func) or '') in ('int', 'round', 'np.floor', 'math.floor') and b.args and isinstance(b.args[0], ast.BinOp) and isinstance(b.args[0].op, ast.Div))]
+        ceilf = [b for b in ast.walk(it) if isinstance(b, ast.Call) and (dotted(b.func) or '').split('.')[-1] == 'ceil']
+        # (n + b - 1) // b is the ceiling written with a floor division
+        ceil_idiom = [b for b in floor if isinstance(b, ast.BinOp) and Pat().any(['(E_n + E_b - 1) // E_b', '(E_n - 1 + E_b) // E_b', '(E_n - 1) // E_b + 1', '-(-E_n // E_b)'], b)]
+        if Pat().any(['range(0, E_n, E_b)', 'np.arange(0, E_n, E_b)', 'range(E_a, E_n, E_b)'], it) or ceilf or (floor and len(ceil_idiom) == len(floor)) or \
+                any(Pat().any(['(E_n - 1) // E_b + 1', 'E_n // E_b + 1', 'int(E_n / E_b) + 1'], x) for x in ast.walk(it)):
+            good = True
+        elif floor:
+            bad = True
+            why = unparse(floor[0])
+    ctx.tri(good, bad, rule, f_, lp.iter if isinstance(lp, ast.For) else lp.test,
+            'the batches of get_depths cover every spike (the trailing partial batch included)',
+            'the number of batches is `%s`, rounded down: the last (number of spikes modulo batch size) spikes are in no batch and keep their initial NaN depth' % why,
+            'the batch loop of get_depths was not recognised')
+
+
 def run(ctx):
     repo = ctx.repo
     cls = repo.cls(M, 'TemplateModel')
@@ -254,6 +305,7 @@ def run(ctx):
         ctx.violated('C09.U4', feat[0][0], feat[0][1], 'the weights do not use the first principal component (`%s` keeps every component)' % unparse(feat[0][1]))
     else:
         ctx.undecided('C09.U4', gd, 'the read of the feature table in get_depths was not recognised')
+    batch_coverage(ctx, 'C09.U4', gd, clo, f3 or feat)
     pw = [(f_, n) for f_ in clo for n in ast.walk(f_.node) if (isinstance(n, ast.BinOp) and isinstance(n.op, ast.Pow)) or
           (isinstance(n, ast.Call) and dotted(n.func) in ('np.square', 'np.power', 'np.abs', 'np.absolute'))]
     sq = [x for x in pw if (isinstance(x[1], ast.BinOp) and const_value(x[0].expand(x[1].right)) == 2) or (isinstance(x[1], ast.Call) and dotted(x[1].func) == 'np.square') or
